@@ -256,6 +256,7 @@ def record_history(chk, hseed, kinds, tid, ndims=3, big=True, nops=4, asset=None
     nlev = {d: len(conts[d]["lev"]) for d in present}
     ops = []
     nout = 0
+    readers, streams = {}, {}
 
     def sched():
         return shims.Scheduler(default="random", rng=random.Random(rng.randrange(1 << 30)))
@@ -321,13 +322,22 @@ def record_history(chk, hseed, kinds, tid, ndims=3, big=True, nops=4, asset=None
                                 kept_fields=" ".join(kept) if kept else None).cook()
         elif kind in ("read", "iter"):
             fsel = rand_fsel(rng, fields)
+            prev = [k for k in streams if k[0] == src]
+            if prev and rng.random() < 0.5:
+                fsel = json.loads(rng.choice(sorted(prev))[1])
             lv = rng.randrange(nlev[src]) if rng.random() < 0.8 else rng.choice([-1, -nlev[src], nlev[src]])
             S = conts[src]
             line = {"ev": "Read" if kind == "read" else "Iter", "src": src, "fsel": fsel, "lv": lv}
             lvp = lv if 0 <= lv < nlev[src] else (lv + nlev[src] if -nlev[src] <= lv < 0 else None)
             try:
-                with core.quiet():
-                    pck = PlotfileCooker(kit.path(src))
+                # readers, selectors and streams are kept and used again within a history (two times out of three): a
+                # selection must not depend on what the same objects were asked before
+                reuse = rng.random() < 0.67
+                if not (reuse and src in readers):
+                    with core.quiet():
+                        readers[src] = PlotfileCooker(kit.path(src))
+                pck = readers[src]
+                skey = (src, json.dumps(fsel, sort_keys=True), lv)
                 if kind == "read":
                     nb = len(S["lev"][lvp]) if lvp is not None else 1
                     bsel = rand_bsel(rng, nb)
@@ -335,7 +345,9 @@ def record_history(chk, hseed, kinds, tid, ndims=3, big=True, nops=4, asset=None
                     variant = rng.random() < 0.5
                     use_iter = bsel["k"] in ("slice", "list", "mask") and rng.random() < 0.3
                     with shims.pool_shim(sched()), core.quiet():
-                        stream = pck[py_fsel(fsel)][lv]
+                        if not (reuse and skey in streams):
+                            streams[skey] = pck[py_fsel(fsel)][lv]
+                        stream = streams[skey]
                         r = stream.iter(py_bsel(bsel, variant)) if use_iter else stream[py_bsel(bsel, variant)]
                         if use_iter and r is not None and not isinstance(r, np.ndarray):
                             r = list(r)
@@ -349,7 +361,9 @@ def record_history(chk, hseed, kinds, tid, ndims=3, big=True, nops=4, asset=None
                     got, stopped = [], True
                     budget = 4 * sum(len(x) for x in S["lev"]) + 8
                     with shims.pool_shim(sched()), core.quiet():
-                        for arr in pck[py_fsel(fsel)][lv]:
+                        if not (reuse and skey in streams):
+                            streams[skey] = pck[py_fsel(fsel)][lv]
+                        for arr in streams[skey]:
                             got.append(abs_box(arr, S, kit, lvp, ndims, with_idxs=False))
                             if len(got) > budget:
                                 stopped = False
